@@ -119,3 +119,22 @@ theorem zipOwnership_written (uid gid : Nat) (hu : uid < 2 ^ 32) (hg : gid < 2 ^
     simpa [le32Bytes] using h3
 
 end Rio
+
+namespace Rio
+
+/-- **A unix2-only extra field (Info-ZIP `zip -X`-era archives: block 0x7855 with a four-byte data section) is read
+    as its 16-bit uid and gid** — the statement `fix:` c3ebb55 made true: before it `parseUnix2Header` demanded eight
+    bytes and every such archive was refused as corrupt. -/
+theorem zipOwnership_unix2_only (uid gid : Nat) (hu : uid < 65536) (hg : gid < 65536) :
+    zipOwnership (unix2Extra uid gid) = .ok uid gid := by
+  have hu' := le16_recompose uid hu
+  have hg' := le16_recompose gid hg
+  simp [unix2Extra, hu, hg, zipOwnership, parseExtra, parseExtraFrom, le16Bytes, le16At, lookupLast, parseUnix2, orPanic,
+    u8_ofNat_mod]
+  omega
+
+/-- and a unix2 block cut short of its four data bytes is refused, never a panic -/
+theorem parseUnix2_short (hdr : Bytes) (h : hdr.length < 4) : parseUnix2 hdr = .corrupt := by
+  simp [parseUnix2, h]
+
+end Rio
